@@ -896,7 +896,7 @@ func (g *vgen) value(t *ftype, f *ffield) *val {
 	case fTime:
 		v.t = g.timev(f)
 		if optional && rng.IntN(6) == 0 {
-			v.t = time.Time{}
+			v.t, v.zero = time.Time{}, true // the zero time: "absent"
 		}
 	case fRaw:
 		if f != nil {
